@@ -155,7 +155,7 @@ fn main() {
 	}
 	install_quiet_panic_hook();
 	self_test_or_exit();
-	if args[1] == "--worker-random" || args[1] == "--worker-tape" || args[1] == "--worker-enum" {
+	if args[1] == "--worker-random" || args[1] == "--worker-tape" || args[1] == "--worker-enum" || args[1] == "--worker-random-b" {
 		// child side of the crash-recovering worker
 		let property: &'static str = Box::leak(args[2].clone().into_boxed_str());
 		let tier = if args[3] == "thorough" { Tier::Thorough } else { Tier::Quick };
@@ -172,6 +172,10 @@ fn main() {
 				_ => 0,
 			};
 			worker::child_enum(n, &**check)
+		} else if args[1] == "--worker-random-b" {
+			// explicit budget (crash mode of any property)
+			let n = |i: usize| args.get(i).and_then(|a| a.parse::<u64>().ok()).unwrap_or(0);
+			worker::child_random(&ctx, name, n(5) as u32, n(6) as u32, n(7) as usize, &**check)
 		} else if args[1] == "--worker-random" {
 			let (q, f, t) = worker_budget(property, name);
 			worker::child_random(&ctx, name, q, f, t, &**check)
